@@ -162,6 +162,51 @@ func calibrateMain(args []string) {
 	}
 }
 
+// calibrateXSSMain: the wrapped-vector family of C04 (a black vector hidden inside a quoted
+// attribute value of a decoy tag or behind a tag form that leaves tokenizer flags set, with an
+// unfinished construct in front of or behind it), calibrated once on the repaired tree: a
+// candidate is kept iff IsXSS reports it.  The frozen list (grammar/xss_wrapped.txt, hex) is
+// swept by vm_compute against the model (gen/C04Wrapped*.v) and replayed on IsXSS on every run.
+func calibrateXSSMain(args []string) {
+	fs := flag.NewFlagSet("calibrate-xss", flag.ExitOnError)
+	out := fs.String("out", "/verif/grammar/xss_wrapped.txt", "")
+	fs.Parse(args)
+	seen := map[string]bool{}
+	var kept []string
+	total := 0
+	wrappedVectors(func(x string) {
+		if seen[x] {
+			return
+		}
+		seen[x] = true
+		// members must carry a black vector: the harmless control "<b>" is not one
+		if !strings.Contains(x, "script") && !strings.Contains(x, "iframe") && !strings.Contains(x, "style") && !strings.Contains(x, "on") &&
+			!strings.Contains(x, "DOCTYPE") && !strings.Contains(x, "import") && !strings.Contains(x, "[if") {
+			return
+		}
+		for i := 0; i < len(x); i++ {
+			if x[i] < 0x20 || x[i] > 0x7e {
+				return
+			}
+		}
+		total++
+		if li.IsXSS(x) {
+			kept = append(kept, x)
+		}
+	})
+	sort.Strings(kept)
+	w, _ := os.Create(*out)
+	defer w.Close()
+	bw := bufio.NewWriter(w)
+	defer bw.Flush()
+	fmt.Fprintln(bw, "# Frozen wrapped-vector family (C04): one member per line, hex. Calibrated once on the repaired tree by")
+	fmt.Fprintln(bw, "# `harness calibrate-xss`: a candidate of wrappedVectors() that carries a black vector is kept iff IsXSS reports it.")
+	for _, x := range kept {
+		fmt.Fprintln(bw, hx(x))
+	}
+	fmt.Printf("calibrate-xss: kept %d of %d candidates\n", len(kept), total)
+}
+
 // ---------------- C05: concurrent histories ----------------
 
 type raceReport struct {
